@@ -252,9 +252,13 @@ def replay_fresh(path, hashseed="0"):
     return d["reproduced"], d["digest"], p.stdout
 
 
-def run_child_world(world, hashseed):
-    """Execute a world in a real child interpreter started with PYTHONHASHSEED=hashseed."""
+def run_child_world(world, hashseed, optimize=0):
+    """Execute a world in a real child interpreter started with PYTHONHASHSEED=hashseed (and, when asked, with
+    PYTHONOPTIMIZE: assertions and docstrings stripped, as under `python -O` / `-OO`)."""
     env = dict(os.environ, PYTHONHASHSEED=str(hashseed), PYTHONDONTWRITEBYTECODE="1", VERIF_NO_REEXEC="1")
+    env.pop("PYTHONOPTIMIZE", None)
+    if optimize:
+        env["PYTHONOPTIMIZE"] = str(optimize)
     p = subprocess.run([PY, os.path.join(VERIF, "check"), "exec-world"], input=canon(world), env=env,
                        capture_output=True, text=True, timeout=300)
     line = [l for l in p.stdout.splitlines() if l.startswith("WORLD-JSON ")]
